@@ -851,6 +851,11 @@ def _spellings(prefix, typ, feats, tier):
                 if f(t) != t:
                     role = 'prefix' if (prefix and i == 0) else 'type' if (typ and i == (1 if prefix else 0)) else 'and' if t == 'and' else 'feature'
                     yield render(words[:i] + [f(t)] + words[i + 1:], dflt), f'word:{role}:{fname}'
+    # the library reads "and(" as the keyword followed by "(" (a documented exemption from the FUNCTION token): in every letter case
+    for i, (t, kind) in enumerate(toks):
+        if t == 'and' and toks[i + 1][1] == 'open':
+            for fname, f in [('lower', str.lower)] + forms:
+                yield render(words[:i] + [f(t)] + words[i + 1:], dflt[:i] + [''] + dflt[i + 1:]), f'and-glued-to-parenthesis:{fname}'
     # leading / trailing white space and comment
     for c in (' ', '/*c*/ '):
         yield c + render(words, dflt), f'lead:{c!r}'
